@@ -125,6 +125,8 @@ class Registry:
     def builtin_spec(self, name, symbolic, native):
         """spec function given as a pair: symbolic implementation (interp, args, kwargs, node) and native meaning"""
         from .values import VBuiltin
+        if name in self.spec_names:
+            raise ValueError(f"spec function {name!r} defined twice")
         self.spec_names[name] = VBuiltin("spec:" + name, symbolic)
         self.native_specs[name] = native
 
@@ -163,6 +165,8 @@ class Registry:
         name = sig.split("(")[0].strip()
         if name in self.spec_src and self.spec_src[name] != (sig, body):
             raise ValueError(f"spec function {name!r} defined twice with different bodies")
+        if name in self.native_specs:
+            raise ValueError(f"spec function {name!r} is already defined as a builtin spec")
         node = ast.parse(f"lambda {sig[sig.index('(') + 1: sig.rindex(')')]}: ({body})", mode="eval").body
         self.spec_names[name] = VFunc(node, None, None, name)
         self.spec_src[name] = (sig, body)
